@@ -51,6 +51,8 @@ type NodeOpts struct {
 	Prometheus    bool
 	ViaDAClient   bool
 	DAClientLimit uint64
+	// DBPath: rollkit.db_path when not empty (default "data"); "-" stands for an explicitly empty value.
+	DBPath        string
 	RootDir       string
 	DAStartHeight uint64
 	MempoolTTL    uint64
@@ -149,6 +151,11 @@ func MakeConfig(o NodeOpts) config.Config {
 	cfg.DA.BlockTime.Duration = o.DABlockTime
 	cfg.DA.StartHeight = o.DAStartHeight
 	cfg.DA.MempoolTTL = o.MempoolTTL
+	if o.DBPath == "-" {
+		cfg.DBPath = ""
+	} else if o.DBPath != "" {
+		cfg.DBPath = o.DBPath
+	}
 	return cfg
 }
 
@@ -168,6 +175,7 @@ func NewNode(ctx context.Context, o NodeOpts, raw ds.Batching, sgn signer.Signer
 	if o.Aggregator {
 		n.HB.Own = n.HStore.TakeOwn
 		n.DB.Own = n.DStore.TakeOwn
+		n.DStore.Strict = true
 	}
 	n.Metrics = metricsFor(o)
 	if o.ViaDAClient {
